@@ -40,10 +40,10 @@ type PlaylistDef struct {
 	ByteRange bool       `json:"byte_range"` // all segments (and the init) in one resource, addressed with byte ranges
 	// RangeDrop: bit (segment index % 16) set = the sub-range of that segment is written without
 	// its offset when it is not the first one listed (it then continues after the previous one)
-	RangeDrop int `json:"range_drop,omitempty"`
-	Name      string     `json:"name,omitempty"`
-	Language  string     `json:"language,omitempty"`
-	Default   bool       `json:"default,omitempty"`
+	RangeDrop int    `json:"range_drop,omitempty"`
+	Name      string `json:"name,omitempty"`
+	Language  string `json:"language,omitempty"`
+	Default   bool   `json:"default,omitempty"`
 }
 
 // StreamDef is a whole synthetic stream.
